@@ -183,6 +183,11 @@ def run_roundtrip(c):
                            'the policy made from a peer does not pass against the same peer', status=r2.status, verdict=v, errors=errs, out=r2.out[-400:], policy=open(pf).read()[-700:]))
             return viol, counters
         perts = perturbations(script, rng, c['all'])
+        # a size can only drift detectably if the policy covers it: the tool records a modulus / key size only when its probes could measure one (e.g. an 8192-bit-only moduli file is never measured)
+        made = open(pf).read()
+        covered_dh = 'dh_modulus_sizes' in made and GEX256 in made.split('dh_modulus_sizes', 1)[1].split('\n', 1)[0]
+        perts = [x for x in perts if not (x[0] == 'modulus' and not covered_dh)]
+        perts = [x for x in perts if not (x[0] in ('size', 'ca') and 'host_key_sizes' not in made)]
         if not c['all']:
             sizes = [x for x in perts if x[0] in ('size', 'ca', 'modulus')]
             lists = [x for x in perts if x[0] not in ('size', 'ca', 'modulus')]
